@@ -34,12 +34,15 @@ IndentDiscipline ==
 (* a run of blank lines ending just before line i *)
 RECURSIVE RunBefore(_)
 RunBefore(i) == IF i < 1 \/ L[i].cls # "blank" \/ L[i].exempt THEN 0 ELSE 1 + RunBefore(i - 1)
+Flank == IF "strict" \in DOMAIN R /\ R.strict THEN {"code", "other"} ELSE {"code"}
 BlankBound ==
   \A i \in 2 .. Len(L) :
     (* the property bounds the blank lines between ITEMS and between STATEMENTS: both  *)
     (* neighbours of the run must be lines that start with code (not comment lines)    *)
-    (L[i].cls = "code" /\ ~L[i].exempt /\ L[i - 1].cls = "blank"
-       /\ i - 1 - RunBefore(i - 1) >= 1 /\ L[i - 1 - RunBefore(i - 1)].cls = "code") =>
+    (* (in the generated sources -- R.strict -- every line is an item, a statement or a   *)
+    (* line comment between two of them, so a comment line may flank the run as well)  *)
+    (L[i].cls \in Flank /\ ~L[i].exempt /\ L[i - 1].cls = "blank"
+       /\ i - 1 - RunBefore(i - 1) >= 1 /\ L[i - 1 - RunBefore(i - 1)].cls \in Flank) =>
        LET run == RunBefore(i - 1) IN
        /\ (L[i].depth = 0 => run <= R.upper)          \* between items
        /\ run <= (IF R.upper > 1 THEN R.upper ELSE 1)  \* statements / list elements
